@@ -345,6 +345,47 @@ struct Enums {  // enums as members, in containers (elements, map keys and value
   BABYLON_COMPATIBLE((a, 1)(b, 2)(c, 3)(d, 4)(e, 5)(f, 6)(ve, 7)(ae, 8)(m, 9)(p, 10)(sp, 11)(le, 12))
   TIE(a, b, c, d, e, f, ve, ae, m, p, sp, le)
 };
+// smart pointers to fixed-width scalars (TRIVIAL size complexity inherited from the pointee) in containers
+struct PF {
+  std::unique_ptr<float> p;
+  BABYLON_COMPATIBLE((p, 1))
+  TIE(p)
+};
+struct HoldPF {
+  std::vector<PF> v;
+  int32_t x {0};
+  std::shared_ptr<double> a[2];
+  BABYLON_COMPATIBLE((v, 1)(x, 2)(a, 3))
+  TIE(v, x, a)
+};
+// aggregates deriving from a serializable container / aggregate, with 0..2 own fields
+using VecS = std::vector<std::string>;
+using ListI = std::list<int32_t>;
+using MapSI = std::unordered_map<std::string, int32_t>;
+struct DVec : public VecS {
+  int32_t x {0};
+  BABYLON_COMPATIBLE_WITH_BASE((VecS, 1), (x, 2))
+  auto tie() { return std::tie(static_cast<VecS&>(*this), x); }
+};
+struct DVec0 : public VecS {
+  BABYLON_COMPATIBLE_WITH_BASE((VecS, 1))
+  auto tie() { return std::tie(static_cast<VecS&>(*this)); }
+};
+struct DList : public ListI {
+  std::string s;
+  int64_t y {0};
+  BABYLON_COMPATIBLE_WITH_BASE((ListI, 3), (s, 1)(y, 2))
+  auto tie() { return std::tie(static_cast<ListI&>(*this), s, y); }
+};
+struct DMap : public MapSI {
+  int32_t x {0};
+  BABYLON_COMPATIBLE_WITH_BASE((MapSI, 1), (x, 2))
+  auto tie() { return std::tie(static_cast<MapSI&>(*this), x); }
+};
+struct DOnly : public OnlyStr {
+  BABYLON_COMPATIBLE_WITH_BASE((OnlyStr, 4))
+  auto tie() { return std::tie(static_cast<OnlyStr&>(*this)); }
+};
 struct Arr {
   int32_t a[3];
   Inner as[2];
@@ -532,6 +573,15 @@ struct OpsBase {
 template <typename T>
 struct Ops : public OpsBase {
   void run_v(const std::string& id, unsigned pmask, Tok& k) override {
+    // first of all: a pristine object serialized without any size calculation before it
+    size_t mark = k.i;
+    std::string ser0;
+    {
+      std::unique_ptr<T> x0(new T {});
+      IO<T>::build(k, *x0);
+      Serialization::serialize_to_string(*x0, ser0);
+    }
+    k.i = mark;
     std::unique_ptr<T> x(new T {});
     IO<T>::build(k, *x);
     k.next();  // ;
@@ -555,8 +605,8 @@ struct Ops : public OpsBase {
     for (int p = P_ARRAY; p <= P_UNLIMITED; ++p)
       if ((pmask >> p) & 1) printf(" p%d=%s", p, parse_show<T>(p, ser, seed).c_str());
     printf(" pm=%s", parse_show<T>(P_ARRAY, model_bytes, seed).c_str());
-    printf(" | mon_size=%d mon_routes=%d\n", (serok && pred == ser.size()) ? 1 : 0,
-           (serok2 && ser2 == ser && ser3 == ser) ? 1 : 0);
+    printf(" ser0=%s | mon_size=%d mon_routes=%d mon_fresh=%d\n", hex(ser0).c_str(), (serok && pred == ser.size()) ? 1 : 0,
+           (serok2 && ser2 == ser && ser3 == ser) ? 1 : 0, ser0 == ser ? 1 : 0);
   }
   void run_d(const std::string& id, unsigned pmask, const std::string& bytes) override {
     uint64_t seed = hash_id(id);
@@ -800,6 +850,15 @@ int main() {
   REG("onlystr", OnlyStr)
   REG("ptrs", Ptrs)
   REG("aggvupi", AggVupi)
+  REG("vupf", std::vector<std::unique_ptr<float>>)
+  REG("lspd", std::list<std::shared_ptr<double>>)
+  REG("vpf", std::vector<PF>)
+  REG("holdpf", HoldPF)
+  REG("dvec", DVec)
+  REG("dvec0", DVec0)
+  REG("dlist", DList)
+  REG("dmap", DMap)
+  REG("donly", DOnly)
   REG("arr", Arr)
   REG("derived", Derived)
   REG("auto", Auto)
